@@ -72,6 +72,11 @@ type am struct {
 
 	// ExtendedPex
 	Added, Dropped []peer
+
+	// streams only: written under this sub-id (the number a remote chose for the extension, as storrent
+	// does when it sends); storrent's own reader knows no such number and must hand back ExtendedUnknown
+	// with exactly this frame skipped
+	Foreign uint8
 }
 
 var kinds = []string{"KeepAlive", "Choke", "Unchoke", "Interested", "NotInterested", "Have", "Bitfield",
@@ -216,6 +221,12 @@ func typeName(m protocol.Message) string {
 // diffStorrent compares what storrent's reader returned with the abstract
 // message; "" means equal modulo the normal forms.
 func diffStorrent(a *am, got protocol.Message) string {
+	if a.Foreign != 0 {
+		if g, ok := got.(protocol.ExtendedUnknown); !ok || g.Subtype != a.Foreign {
+			return fmt.Sprintf("%s written under the foreign sub-id %d decoded as %s %+v, want ExtendedUnknown{%d}", a.Kind, a.Foreign, typeName(got), got, a.Foreign)
+		}
+		return ""
+	}
 	if typeName(got) != a.Kind {
 		return fmt.Sprintf("decoded as %s, want %s", typeName(got), a.Kind)
 	}
@@ -896,7 +907,11 @@ type sdesc struct {
 func checkStream(c *vk.C, rng *rand.Rand, msgs []*am, d *sdesc) {
 	sm := make([]protocol.Message, len(msgs))
 	for i, a := range msgs {
-		sm[i] = toStorrent(a, ownSub(a.Kind))
+		if a.Foreign != 0 {
+			sm[i] = toStorrent(a, a.Foreign)
+		} else {
+			sm[i] = toStorrent(a, ownSub(a.Kind))
+		}
 	}
 	wire, err := write(sm...)
 	if err != nil {
@@ -904,6 +919,11 @@ func checkStream(c *vk.C, rng *rand.Rand, msgs []*am, d *sdesc) {
 		return
 	}
 	d.Bytes = len(wire)
+	for _, a := range msgs {
+		if a.Foreign != 0 {
+			c.Count("stream_messages_under_foreign_subid", 1)
+		}
+	}
 	c.Count("streams", 1)
 	c.Count("stream_messages", int64(len(msgs)))
 	c.Count("stream_bytes", int64(len(wire)))
@@ -1520,6 +1540,12 @@ func TestCheck(t *testing.T) {
 				}
 			} else {
 				a = genMessage(rng, kind, large && j == cnt/2)
+			}
+			if k%5 == 2 && rng.IntN(3) == 0 {
+				switch a.Kind {
+				case "ExtendedPex", "ExtendedDontHave", "ExtendedMetadata":
+					a.Foreign = uint8(5 + rng.IntN(251))
+				}
 			}
 			msgs = append(msgs, a)
 			if len(d.Kinds) < 50 {
